@@ -157,6 +157,7 @@ class TornStore:
 
     def __init__(self) -> None:
         self.data: str | None = None
+        self.raw: bytes | None = None
         self.writes = 0
 
     def open(self, mode: str = "r", encoding: str | None = None):  # noqa: ARG002
@@ -166,11 +167,14 @@ class TornStore:
                 def close(self) -> None:
                     if not self.closed:
                         store.data = self.getvalue()
+                        store.raw = None
                         store.writes += 1
                     super().close()
             return _W()
         if self.data is None:
             raise FileNotFoundError("empty store")
+        if self.raw is not None:  # a flipped stored *byte*: decoding happens in read(), as with a real file
+            return io.TextIOWrapper(io.BytesIO(self.raw), encoding=encoding or "utf-8")
         return io.StringIO(self.data)
 
 
@@ -301,9 +305,9 @@ class C16(Sim):
                 else:
                     for _ in range(rng.choice([1, 1, 1, 2, 3])):
                         kind = rng.choice(["line_delete", "line_duplicate", "line_swap", "tok_delete", "tok_duplicate", "tok_substitute",
-                                           "tok_substitute", "tok_swap", "char_flip"])
+                                           "tok_substitute", "tok_swap", "char_flip", "byte_flip"])
                         ops.append({"op": "corrupt_store", "c": {"kind": kind, "pos": rng.randrange(256), "wpos": rng.randrange(16),
-                                                                 "cpos": rng.randrange(8), "word": rng.choice(WORDS + ["true", "false", "none", "Centroid", "General", "Triangle", "term:", "range:", "Engine:", "RuleBlock:", "OutputVariable:", "200", "Minimum", "Automatic"])}})
+                                                                 "cpos": rng.randrange(8), "byte": rng.choice([0, 9, 10, 13, 32, 35, 58, 127, 128, 192, 237, 255, rng.randrange(256)]), "word": rng.choice(WORDS + ["true", "false", "none", "Centroid", "General", "Triangle", "term:", "range:", "Engine:", "RuleBlock:", "OutputVariable:", "200", "Minimum", "Automatic"])}})
                 ops.append({"op": "import_store"})
         yield {"arm": "clean", "config": sp, "ops": ops}
 
@@ -595,8 +599,18 @@ class C16(Sim):
                     continue
                 c = op["c"]
                 old = store.data
-                store.data = corrupt_text(old, c)
                 pending_listed = None
+                if c["kind"] == "byte_flip":
+                    raw = bytearray((store.raw if store.raw is not None else old.encode("utf-8")))
+                    if raw:
+                        raw[c["pos"] * 7919 % len(raw)] = c.get("byte", 255) % 256
+                    store.raw = bytes(raw)
+                    st.hit("faults.doc_byte_flip")
+                    emit(f"{i} corrupt_store byte_flip")
+                    sig.append("cbyte")
+                    continue
+                store.raw = None
+                store.data = corrupt_text(old, c)
                 st.hit("faults.doc_" + c["kind"])
                 if c["kind"] == "torn":
                     cut = len(store.data)
